@@ -21,7 +21,7 @@ RULE = ('cases = (shape up to 4-D with 0-6 cells per dimension, per-dimension bi
         'distinct = structural hash of the case')
 ASSUMPTIONS = ['slices have step None or 1 (quantifier of the property)',
                'for selections that retain no cell only result.size == 0 is asserted']
-BUDGET = {'quick': {'cases': 6000, 'shards': 16, 'seconds': 120},
+BUDGET = {'quick': {'cases': 24000, 'shards': 16, 'seconds': 120},
           'thorough': {'cases': 400000, 'shards': 16, 'seconds': 900}}
 FLOORS = {'slice': 0.3, 'squeeze': 0.1}
 
